@@ -134,6 +134,7 @@ def build():
                note="no change -> the very same node object; otherwise a new node built by dataclasses.replace from exactly the collected changes"))
     lem = [concat_from_first(first, vmeth, vname, OM, VIS, CLS, SC)]
     lem += transform_children(world, lib, reg, nv, VIS)
+    world.trusted_notes.append("_transform_children: the results of the user's visit() calls are a skolem function of the call position (visit_result_at); the lists stored in the change dict are created in the function and never aliased; a dict comprehension over a set is the restriction of the dict to that set (keys_list_exactly, names_are_keys: quantified lemmas)")
     return world, lib, reg, lem
 
 
